@@ -217,6 +217,22 @@ class Child:
             child.same_moltype_texts = texts
             return real_top(system, *args, **kwargs)
         m2.write_gmx_topology = top_wrapper
+        # C11 'rigid-generic': an arbitrary rigid motion applied in memory to what read_system returns
+        mem = (self.task.get('variant') or {}).get('mem_rigid')
+        if mem:
+            import numpy
+            real_read = m2.read_system
+            matrix = numpy.array(mem['matrix'], dtype=float).reshape(3, 3)
+            shift = numpy.array(mem['shift'], dtype=float)
+
+            def read_wrapper(*args, **kwargs):
+                system = real_read(*args, **kwargs)
+                for mol in system.molecules:
+                    for node in mol.nodes.values():
+                        if node.get('position') is not None:
+                            node['position'] = matrix @ numpy.asarray(node['position'], dtype=float) + shift
+                return system
+            m2.read_system = read_wrapper
         # finalisation
         self.fs = faultfs.FaultFS(self.cwd, self.tmpdir)
         real_write = fw.DeferredFileWriter.write
